@@ -85,6 +85,8 @@ class Folder:
                 return ("str", lit["v"])
             if lit["t"] == "bool":
                 return ("bool", lit["v"])
+            if lit["t"] == "bytestr":
+                return ("bytes", tuple(lit["v"]))
             raise Unfoldable("literal kind " + lit["t"], sp)
         if k == "cast":
             v = self.fold(e["e"])
